@@ -565,50 +565,14 @@ Section RFNoLeak.
     | SResource => None
     end.
 
-  Theorem rf_no_leak_partial : forall f loc r t calls,
-    reconcile_rf call krm f loc = (r, t, calls) ->
+  Lemma rf_after_locals_no_leak : forall f loc t1 r t calls,
+    (forall s, In s t1 -> forall rw, rf_raw_at f s = Some rw -> failed rw -> ~ undumpable rw -> False) ->
+    rf_after_locals call krm f loc t1 = (r, t, calls) ->
     (forall v, r = Done (Some (UVal v)) -> err_free v) /\
     (forall s rw, In s t -> rf_raw_at f s = Some rw -> failed rw -> ~ undumpable rw ->
        exists o, r = Done (Some (UOut o)) /\ names_loc (sloc loc (part s)) o).
   Proof.
-    intros f loc r t calls. unfold reconcile_rf.
-    destruct (evaluate_predicates_opt (rf_pre f) (sloc loc "preconditions")) as [[o|]|e0] eqn:P.
-    { intros E; inversion E; subst. split; [discriminate|].
-      intros st rw Hin Hr F U. apply trace_of_in' in Hin as [-> _]. cbn in Hr. rewrite Hr in P. cbn in P.
-      destruct (evaluate_predicates_failed rw (sloc loc "preconditions") F U) as (o' & E' & N).
-      exists o'. split; auto. congruence. }
-    2:{ intros E; inversion E; subst. split; [discriminate|].
-        intros st rw Hin Hr F U. apply trace_of_in' in Hin as [-> _]. cbn in Hr. rewrite Hr in P. cbn in P.
-        apply evaluate_predicates_raises in P. contradiction. }
-    assert (Hpre : forall rw, rf_pre f = Some rw -> failed rw -> ~ undumpable rw -> False).
-    { intros rw Hr F U. rewrite Hr in P. cbn in P.
-      destruct (evaluate_predicates_failed rw (sloc loc "preconditions") F U) as (o' & E & _). congruence. }
-    pose proof (evaluate_cases (rf_locals f) (sloc loc "locals")) as HL.
-    match goal with |- context [match ?X with Done (Some _) => _ | Done None => _ | Raised _ => _ end] =>
-      destruct X as [[o2|]|e2] eqn:EL end.
-    { intros E; inversion E; subst. split; [discriminate|].
-      intros st rw Hin Hr F U. apply in_app_or in Hin as [Hin|Hin]; apply trace_of_in' in Hin as [-> _]; cbn in Hr.
-      - exfalso; eauto.
-      - destruct (evaluate (rf_locals f) (sloc loc "locals")) as [[|v|o3]|e3]; try discriminate.
-        + destruct v; try discriminate; destruct HL as [HL1 HL2]; rewrite HL1 in Hr; inversion Hr; subst;
-            cbn in F; contradiction.
-        + destruct HL as [_ HN]. inversion EL; subst. eauto. }
-    2:{ intros E; inversion E; subst. split; [discriminate|].
-        intros st rw Hin Hr F U. apply in_app_or in Hin as [Hin|Hin]; apply trace_of_in' in Hin as [-> _]; cbn in Hr.
-        - exfalso; eauto.
-        - destruct (evaluate (rf_locals f) (sloc loc "locals")) as [[|v|o3]|e3]; try discriminate.
-          + destruct v; discriminate.
-          + rewrite HL in Hr. inversion Hr; subst. exfalso. now apply U. }
-    assert (Hloc : forall rw, rf_locals f = Some rw -> failed rw -> False).
-    { intros rw Hr F. destruct (evaluate (rf_locals f) (sloc loc "locals")) as [[|v|o3]|e3].
-      - rewrite HL in Hr. discriminate.
-      - destruct HL as [HL1 HL2]. rewrite HL1 in Hr. inversion Hr; subst. cbn in F. contradiction.
-      - discriminate.
-      - discriminate. }
-    assert (Hne : forall s, In s (trace_of SPre (rf_pre f) ++ trace_of SLocals (rf_locals f)) ->
-                  forall rw, rf_raw_at f s = Some rw -> failed rw -> ~ undumpable rw -> False).
-    { intros s0 Hin rw Hr F U. apply in_app_or in Hin as [Hin|Hin]; apply trace_of_in' in Hin as [-> _];
-        cbn in Hr; eauto. }
+    intros f loc t1 r t calls Hne. unfold rf_after_locals.
     destruct (krm (rf_locals f)) as [[v|o3] calls0] eqn:K.
     2:{ intros E; inversion E; subst. split; [discriminate|].
         intros st rw Hin Hr F U. apply in_app_or in Hin as [Hin|[<-|[]]]; [exfalso; eauto|discriminate]. }
@@ -634,5 +598,54 @@ Section RFNoLeak.
       + apply trace_of_in' in Hin as [-> _]. cbn in Hr.
         destruct (evaluate_failed rw (sloc loc "return") F U) as (o' & E' & N).
         rewrite Hr, E'. eauto.
+  Qed.
+
+  Theorem rf_no_leak_partial : forall f loc r t calls,
+    reconcile_rf call krm f loc = (r, t, calls) ->
+    (forall v, r = Done (Some (UVal v)) -> err_free v) /\
+    (forall s rw, In s t -> rf_raw_at f s = Some rw -> failed rw -> ~ undumpable rw ->
+       exists o, r = Done (Some (UOut o)) /\ names_loc (sloc loc (part s)) o).
+  Proof.
+    intros f loc r t calls. unfold reconcile_rf.
+    destruct (evaluate_predicates_opt (rf_pre f) (sloc loc "preconditions")) as [[o|]|e0] eqn:P.
+    { intros E; inversion E; subst. split; [discriminate|].
+      intros st rw Hin Hr F U. apply trace_of_in' in Hin as [-> _]. cbn in Hr. rewrite Hr in P. cbn in P.
+      destruct (evaluate_predicates_failed rw (sloc loc "preconditions") F U) as (o' & E' & N).
+      exists o'. split; auto. congruence. }
+    2:{ intros E; inversion E; subst. split; [discriminate|].
+        intros st rw Hin Hr F U. apply trace_of_in' in Hin as [-> _]. cbn in Hr. rewrite Hr in P. cbn in P.
+        apply evaluate_predicates_raises in P. contradiction. }
+    assert (Hpre : forall rw, rf_pre f = Some rw -> failed rw -> ~ undumpable rw -> False).
+    { intros rw Hr F U. rewrite Hr in P. cbn in P.
+      destruct (evaluate_predicates_failed rw (sloc loc "preconditions") F U) as (o' & E & _). congruence. }
+    pose proof (evaluate_cases (rf_locals f) (sloc loc "locals")) as HL.
+    assert (Hcont : (forall rw, rf_locals f = Some rw -> failed rw -> False) ->
+              forall s, In s (trace_of SPre (rf_pre f) ++ trace_of SLocals (rf_locals f)) ->
+              forall rw, rf_raw_at f s = Some rw -> failed rw -> ~ undumpable rw -> False).
+    { intros Hloc s0 Hin rw Hr F U. apply in_app_or in Hin as [Hin|Hin]; apply trace_of_in' in Hin as [-> _];
+        cbn in Hr; eauto. }
+    assert (Hstop : forall o2, (forall rw, rf_locals f = Some rw -> failed rw -> ~ undumpable rw ->
+                                  names_loc (sloc loc "locals") o2) ->
+              (Done (Some (UOut o2)) : res (option (uoutcome vtree)),
+               trace_of SPre (rf_pre f) ++ trace_of SLocals (rf_locals f), @nil call) = (r, t, calls) ->
+              (forall v, r = Done (Some (UVal v)) -> err_free v) /\
+              (forall s rw, In s t -> rf_raw_at f s = Some rw -> failed rw -> ~ undumpable rw ->
+                 exists o, r = Done (Some (UOut o)) /\ names_loc (sloc loc (part s)) o)).
+    { intros o2 Ho2 E; inversion E; subst. split; [discriminate|].
+      intros st rw Hin Hr F U. apply in_app_or in Hin as [Hin|Hin]; apply trace_of_in' in Hin as [-> _]; cbn in Hr.
+      - exfalso; eauto.
+      - eauto. }
+    destruct (evaluate (rf_locals f) (sloc loc "locals")) as [[|v|o2]|e2] eqn:EL.
+    - apply rf_after_locals_no_leak. apply Hcont. intros rw Hr. rewrite HL in Hr. discriminate.
+    - destruct HL as [HL1 HL2].
+      assert (Hloc : forall rw, rf_locals f = Some rw -> failed rw -> False).
+      { intros rw Hr F. rewrite HL1 in Hr. inversion Hr; subst. cbn in F. contradiction. }
+      destruct v; try (apply rf_after_locals_no_leak; apply Hcont; exact Hloc);
+        (apply Hstop; intros rw Hr F U; exfalso; eauto).
+    - apply Hstop. destruct HL as [_ HN]. auto.
+    - intros E; inversion E; subst. split; [discriminate|].
+      intros st rw Hin Hr F U. apply in_app_or in Hin as [Hin|Hin]; apply trace_of_in' in Hin as [-> _]; cbn in Hr.
+      + exfalso; eauto.
+      + rewrite HL in Hr. inversion Hr; subst. exfalso. now apply U.
   Qed.
 End RFNoLeak.
